@@ -116,6 +116,10 @@ class NetworkManager(Manager):
         self.broadcast_message(DataMessage(DATA_TRANSACTION, transaction))
 
     def broadcast_message(self, message: DataMessage) -> None:
+        with self.local_peer.lock:  # also called from other threads than the networking thread
+            self._broadcast_message(message)
+
+    def _broadcast_message(self, message: DataMessage) -> None:
         for peer in self.get_active_peers():
             try:
                 # try/except b/c .send_message might try to set the selector for a just-closed sock to writing
